@@ -452,7 +452,7 @@ func c05ParseColName(s string) (name string, i1, i2 int) {
 // fits the width in the fixed-width style.
 func c05RunCol(r *vh.Rng, spec string, kind string) c05Col {
 	name, i1, i2 := c05ParseColName(spec)
-	col := c05Col{Var: name, I1: i1, I2: i2, Align: []string{"left", "right", "center"}[r.Intn(3)]}
+	col := c05Col{Var: name, I1: i1, I2: i2, Align: []string{"left", "right", "center", "none"}[r.Intn(4)]} // all four spellings the configuration accepts
 	switch kind {
 	case "float":
 		switch r.Intn(3) {
@@ -671,6 +671,9 @@ func c05GenCase(r *vh.Rng, name string) *c05Case {
 	cs := &c05Case{}
 	dense := r.Chance(0.4)
 	p := proj.Gen(r.Fork(), name, proj.Opt{Years: r.Range(1, 4), MaxLayers: 12})
+	if r.Chance(0.4) {
+		p.RotForeign = r.Range(1, 3) // rotation file shared with other fields, ordered by year
+	}
 	start := p.Start()
 	end := p.End()
 	// ---- start date classes
